@@ -119,6 +119,18 @@ def c04(run):
 PROPS = {"C01": c01, "C04": c04}
 
 
+def _discover():
+    import importlib, glob
+    here = os.path.dirname(os.path.abspath(__file__))
+    for f in sorted(glob.glob(os.path.join(here, "p_c*.py"))):
+        name = os.path.splitext(os.path.basename(f))[0]
+        mod = importlib.import_module("vc." + name)
+        PROPS[name[2:].upper()] = mod.run
+
+
+_discover()
+
+
 def main(argv):
     if not argv:
         print(__doc__); return 2
